@@ -44,15 +44,16 @@ def emit_value(a, kind, arg):
 def emit_mapping_slot(a, var, argbase=0):
     """Leaves keccak(key_d || ... keccak(key_1 || slot)) on the stack."""
     first = True
+    mb = var.get("mem_base", 0)                                    # scratch space, or a frame at the free-memory pointer
     for i, k in enumerate(var["keys"]):
         emit_value(a, k, argbase + i)
-        a.emit(("push", 0, 1) if i % 2 else 0, "MSTORE")          # key at 0x00
+        a.emit((("push", 0, 1) if i % 2 else 0) if mb == 0 else mb, "MSTORE")   # key at mb
         if first:
             a.emit(var["slot"] if var["slot"] else ("push", 0, 1))
             first = False
         # (for nested levels the previous hash is already on the stack)
-        a.emit(0x20, "MSTORE")                                     # slot / previous hash at 0x20
-        a.emit(0x40, 0, "SHA3")
+        a.emit(mb + 0x20, "MSTORE")                                # slot / previous hash at mb + 0x20
+        a.emit(0x40, mb, "SHA3")
 
 
 def emit_read(a, var, rng):
@@ -74,7 +75,8 @@ def emit_read(a, var, rng):
             # the compiler has folded keccak(slot) into a literal (minimal PUSH width, as solc emits it)
             a.emit(("push", keccak.keccak_words(var["slot"]), None))
         else:
-            a.emit(var["slot"] if var["slot"] else ("push", 0, 1), 0, "MSTORE", 0x20, 0, "SHA3")
+            a.emit(var["slot"] if var["slot"] else ("push", 0, 1), var.get("mem_base", 0), "MSTORE", 0x20,
+                   var.get("mem_base", 0), "SHA3")
         a.emit(4, "CALLDATALOAD")
         if rng.random() < 0.5:
             a.emit("SWAP1")
@@ -107,7 +109,8 @@ def emit_write(a, var, rng):
         if var.get("prefolded"):
             a.emit(("push", keccak.keccak_words(var["slot"]), None))
         else:
-            a.emit(var["slot"] if var["slot"] else ("push", 0, 1), 0, "MSTORE", 0x20, 0, "SHA3")
+            a.emit(var["slot"] if var["slot"] else ("push", 0, 1), var.get("mem_base", 0), "MSTORE", 0x20,
+                   var.get("mem_base", 0), "SHA3")
         a.emit(4, "CALLDATALOAD", "ADD", "SSTORE")
     elif kind == "packed" and var.get("write_style") in ("single-left", "single-right"):
         # all fields combined into one word and stored with a single SSTORE (struct initialisation); the or-tree
@@ -238,6 +241,9 @@ def random_ground_truth(rng, nvars=None, slot_pool=None, kinds=None):
                     used.discard(s)
                     var["slot"] = rng.choice(cand)
                     used.add(var["slot"])
+        if kind in ("mapping", "dynarray") and rng.random() < 0.3:
+            # the pre-image is staged in a memory frame instead of the scratch space
+            var["mem_base"] = rng.choice([0x40, 0x80, 0x100, 0x160, 0x180, 0x1c0, 0x400, 0x1000, 0x10000])
         if kind == "mapping":
             d = rng.choice([1, 1, 2, 2, 3, 4])
             var["keys"] = [rng.choice(["word", "addr"]) for _ in range(d)]
